@@ -245,9 +245,10 @@ def _emit(ctx, key, args, vec_index):
     a = list(args)
     a.insert(vec_index, v)
     _, outs = backend.fold(ctx, key, a, max_steps=200000)
+    msg = backend.fold_verdict(outs, "R-MEM: %s" % key.split(">::")[-1])
+    if msg:
+        return msg
     outs = [o for o in outs if not getattr(o, "diverged", None)]
-    if len(outs) != 1:
-        return None
     return outs[0].final.locals[vec_index + 1].items
 
 
@@ -362,8 +363,8 @@ def rule_mem(b):
         def run_case(op, key, args, vec_index, nvars, spec, defined, dont_care, cap):
             codes = _emit(ctx, key, args, vec_index)
             stats["cases"] += 1
-            if codes is None:
-                return ["emission could not be folded"], None
+            if isinstance(codes, str):
+                return [codes], None
             m0, init = _init(tg, nvars)
             paths = isa.explore(ctx, arch, codes, m0.clone(), max_paths=cap or max_paths)
             if isa.explore.truncated:
@@ -398,7 +399,7 @@ def rule_mem(b):
         else:
             rs_all = sorted({0, 1, nreg - 3, nreg - 2, nreg - 1, nreg, nreg + 1})
         rs_all = [r for r in rs_all if r >= 0]
-        max_n = 2 * lay.F + 1 if thorough else 2 * lay.F - 1       # 3 blocks (thorough) / 2 blocks (quick)
+        max_n = 2 * lay.F + 1       # up to 3 linked blocks (the quick tier follows a spread sample of the paths of multi-block classes)
 
         # ---- share_block_n / erase_block ----
         for name in ("share_block_n", "erase_block"):
